@@ -208,6 +208,9 @@ def observe(s):
     attempt("self_eq", lambda: bool(s == s))
     attempt("copy_eq", lambda: bool(s.copy() == s) and bool(s == s.copy()))
     attempt("copy_ser", lambda: s.copy().serialize())
+    attempt("tser", lambda: s.typed_serialize())
+    attempt("copy_tser", lambda: s.copy().typed_serialize())
+    attempt("hash", lambda: str(hash(s)))
     return out
 
 
@@ -420,6 +423,174 @@ def _sequence(job):
            "after": {"states": infos_a, "pairs": pairs_a}}
     if ctx is not None:
         out["before"]["ctx"] = out["after"]["ctx"] = ctx.dump()
+    return out
+
+
+# ---------------------------------------------------------------- observe - mutate - observe on ONE object
+def fluent_vars(f):
+    """the argument list the fluent prints (public fields only)"""
+    out = []
+    for n, k in f.repeating_variables.items():
+        out += [n] * k
+    out += [p for p in f.signature if p not in f.repeating_variables]
+    return out
+
+
+def make_fact(g):
+    return GroundedPredicate(g["name"], {p: ty(t) for p, t in g["sig"]}, {p: o for p, o in g["map"]},
+                             is_positive=g.get("pos", True))
+
+
+def make_fluent(f):
+    pf = PDDLFunction(f["name"], {p: ty(t) for p, t in f["sig"]}, {n: k for n, k in f.get("rep", [])})
+    if "ival" in f:
+        pf.set_value(int(f["ival"]))
+    else:
+        pf.set_value(float("nan") if f["val"] == "nan" else float.fromhex(f["val"]))
+    return pf
+
+
+def group_key(s, name, hint):
+    """the key of the set the facts called `name` live in: the first key whose set holds such a fact, else the hint"""
+    for k, grp in s.state_predicates.items():
+        if any(g.name == name for g in grp):
+            return k
+    return hint
+
+
+def find_facts(s, name, args):
+    text = "(%s %s)" % (name, " ".join(args))
+    return [(k, g) for k, grp in s.state_predicates.items() for g in grp if g.untyped_representation == text]
+
+
+def find_fluents(s, name, args):
+    return [k for k, f in s.state_fluents.items() if f.name == name and fluent_vars(f) == list(args)]
+
+
+def apply_mutation(m, built):
+    """changes built[m['target']] IN PLACE through its public attributes; returns what was done"""
+    s = built[m["target"]]
+    kind = m["kind"]
+    if kind == "add-fact":
+        key = group_key(s, m["fact"]["name"], m["key"])
+        g = make_fact(m["fact"])
+        if key in s.state_predicates:
+            s.state_predicates[key].add(g)
+            return {"key": key, "new_key": False}
+        s.state_predicates[key] = {g}
+        return {"key": key, "new_key": True}
+    if kind == "discard-fact":
+        found = find_facts(s, m["name"], m["args"])
+        for n, (k, g) in enumerate(found):
+            how = m.get("how", "discard")
+            if how == "discard":
+                s.state_predicates[k].discard(g)
+            elif how == "remove":
+                s.state_predicates[k].remove(g)
+            elif how == "difference_update":
+                s.state_predicates[k].difference_update([g])
+            else:                                   # a new set without it, stored under the same key
+                s.state_predicates[k] = {x for x in s.state_predicates[k] if x is not g}
+        return {"found": len(found)}
+    if kind == "set-group":
+        key = group_key(s, m["name"], m["key"])
+        s.state_predicates[key] = {make_fact(g) for g in m["facts"]}
+        return {"key": key}
+    if kind == "del-group":
+        keys = [k for k, grp in s.state_predicates.items() if any(g.name == m["name"] for g in grp)]
+        for k in keys:
+            if m.get("how") == "clear":
+                s.state_predicates[k].clear()
+            else:
+                del s.state_predicates[k]
+        return {"keys": keys}
+    if kind == "rename-fact":
+        found = find_facts(s, m["name"], m["args"])
+        for _, g in found:
+            g.name = m["new"]
+        return {"found": len(found)}
+    if kind == "set-value":
+        keys = find_fluents(s, m["name"], m["args"])
+        for k in keys:
+            if "ival" in m:
+                s.state_fluents[k].set_value(int(m["ival"]))
+            else:
+                s.state_fluents[k].set_value(float("nan") if m["val"] == "nan" else float.fromhex(m["val"]))
+        return {"keys": keys}
+    if kind == "put-fluent":
+        keys = find_fluents(s, m["fluent"]["name"], m["args"])
+        key = keys[0] if keys else m["key"]
+        s.state_fluents[key] = make_fluent(m["fluent"])
+        return {"key": key, "new_key": not keys}
+    if kind == "del-fluent":
+        keys = find_fluents(s, m["name"], m["args"])
+        for k in keys:
+            if m.get("how") == "pop":
+                s.state_fluents.pop(k)
+            else:
+                del s.state_fluents[k]
+        return {"keys": keys}
+    if kind == "rename-fluent":
+        keys = find_fluents(s, m["name"], m["args"])
+        for k in keys:
+            s.state_fluents[k].name = m["new"]
+        return {"keys": keys}
+    if kind == "rebuild-dicts":
+        items = list(s.state_predicates.items())
+        fl = list(s.state_fluents.items())
+        if m.get("reverse"):
+            items.reverse()
+            fl.reverse()
+        s.state_predicates = {k: set(reversed(list(grp))) for k, grp in items}
+        s.state_fluents = dict(fl)
+        return {}
+    if kind == "flip-init":
+        s.is_init = not s.is_init
+        return {}
+    if kind == "effects":
+        dom = get_domain(m["domain"])
+        pr = get_problem(dom, m["problem"])
+        op = Operator(dom.actions[m["action"]], dom, list(m["args"]), pr.objects)
+        op.ground()
+        prev = built[m["prev"]] if m.get("prev") is not None else None
+        for e in op.grounded_effects:
+            e.apply(s, previous_state=prev)
+        return {"effects": len(op.grounded_effects)}
+    raise ValueError("unknown mutation " + kind)
+
+
+def omo(job):
+    """observe - mutate - observe: the start states are built, dumped, observed and compared (all ordered pairs); then,
+    step by step, ONE of the existing Python objects is changed in place through its public attributes, further states
+    are built (fresh ones holding the new contents, copies made now, ...), and EVERY state -- the changed one, the
+    untouched old ones, the new ones -- is dumped, observed and compared again.  One 'moment' per step."""
+    ctx = Context(job["ctx"]) if job.get("ctx") else None
+    built = []
+
+    def moment(infos, last):
+        n = len(built)
+        pairs = compare(built, [[i, j] for i in range(n) for j in range(n)])
+        # the copy test: on a copy of the state (the state itself lives on), at the last moment on the state itself
+        for s, info in zip(built, infos):
+            if s is not None and "dump" in info:
+                try:
+                    info.update(independence(s if last else s.copy()))
+                except Exception as e:  # noqa
+                    info["indep"] = exc(e)
+        return {"states": infos, "pairs": pairs}
+    steps = job["steps"]
+    moments = [moment(build_all(job["start"], built, ctx), not steps)]
+    applied = []
+    for k, step in enumerate(steps):
+        try:
+            applied.append({"value": apply_mutation(step["mut"], built)})
+        except Exception as e:  # noqa
+            applied.append(exc(e))
+        old = [look(s, ctx) if s is not None else {"build_raised": {"raised": "BuildFailed", "msg": ""}} for s in built]
+        moments.append(moment(old + build_all(step.get("build", []), built, ctx), k == len(steps) - 1))
+    out = {"moments": moments, "applied": applied}
+    if ctx is not None:
+        out["ctx"] = ctx.dump()
     return out
 
 
